@@ -172,10 +172,32 @@ func VH_C16_STLString() {
 // point theory over bit-vectors, no relaxation) for every nanosecond offset within a second.
 func VH_C16_FractionExact() {
 	vsolver("cvc5") // exact IEEE queries: cvc5 decides them in seconds where z3 needs a minute (DESIGN.md section 4)
-	digits := []int{2, 3}[choose(2)]
+	// the four format-specific entry points the writers call (and the shared helper itself)
+	f := choose(5)
+	digits := 3
+	if f == 2 || f == 4 {
+		digits = 2
+	}
 	i := nondetInt64(0, 999999999)
-	s := formatDuration(time.Duration(i), ".", digits)
+	var s string
+	switch f {
+	case 0:
+		s = formatDurationSRT(time.Duration(i))
+	case 1:
+		s = formatDurationWebVTT(time.Duration(i))
+	case 2:
+		s = formatDurationSSA(time.Duration(i))
+	case 3:
+		b, _ := TTMLOutDuration(i).MarshalText()
+		s = string(b)
+	default:
+		s = formatDuration(time.Duration(i), ".", digits)
+	}
 	vassert(len(s) == 9+digits, "C16 exact: shape")
+	if len(s) != 9+digits {
+		return
+	}
+	vassert(veqstr(s[:8], "00:00:00"), "C16 exact: whole-second fields")
 	var want int64
 	if digits == 3 {
 		want = i / 1000000
